@@ -265,6 +265,12 @@ let handle () =
      let m = rep n (fun () -> rep n ngz) in
      let v = nvec () in let basis = nbasis () in
      List.iter (fun c -> emit (sgz c)) (m_ext_full norb m v basis)
+   | "CERT" ->
+     let n = nint () in let r = nint () in
+     let k = nz () in let c = nz () in
+     let rdm rows cols = rep rows (fun () -> rep cols nz) in
+     let nm = rdm n n in let rm = rdm n n in let wm = rdm r n in
+     emit (sb (m_check_cert (nat_of_int n) (nat_of_int r) k c nm rm wm))
    | "INNER" ->
      let norb = nnat () in let x = nvec () in let y = nvec () in
      emit (sgz (m_inner norb x y))
